@@ -385,14 +385,16 @@ def encode_with_spec(chk: Check, in_paths: list[str], jobs: int = 16) -> dict[st
     def one(p):
         return tlc.run_tlc("CodecEncode", env={"KIO_TRACE_FILE": p}, workers=1, timeout=3000)
 
+    # input shards above the size a 3 GB heap can deserialize are split (see tlc.split_large)
+    parts = [(p, q) for p in in_paths for q in tlc.split_large(p)]
     with concurrent.futures.ThreadPoolExecutor(max_workers=jobs) as ex:
-        results = list(ex.map(one, in_paths))
-    out = {}
+        results = list(ex.map(one, [q for _, q in parts]))
+    out = {p: [] for p in in_paths}
     states = gen = 0
-    for p, res in zip(in_paths, results):
+    for (p, q), res in zip(parts, results):
         if not tlc.tlc_ok(res):
-            raise Machinery(f"CodecEncode failed on {p}:\n{res['out'][-2500:]}")
-        out[p] = tlc.parse_json_lines(res["out"])
+            raise Machinery(f"CodecEncode failed on {q}:\n{res['out'][-2500:]}")
+        out[p].extend(tlc.parse_json_lines(res["out"]))
         states += res["states"]
         gen += res["generated"]
     chk.add_tlc("CodecEncode(pass1)", {"states": states, "generated": gen,
